@@ -52,6 +52,9 @@ class StubContext(object):
     def wrap_socket(self, sock, server_side=False, **kw):
         return sock
 
+    def session_stats(self):
+        return {}
+
 
 class BareHandlers(object):
     """Recording handler object for slimta.smtp.server.Server."""
@@ -290,13 +293,10 @@ def b64(s):
 
 
 def frame_content(content):
-    """Reference DATA framing (independent of DataSender): dot-stuff, terminate."""
+    """Reference DATA framing (independent of DataSender): terminate, dot-stuff every line start (after LF)."""
     if content and not content.endswith(b'\r\n'):
         content += b'\r\n'
-    out = []
-    for line in content.split(b'\r\n')[:-1] if content else []:
-        out.append((b'.' + line if line.startswith(b'.') else line) + b'\r\n')
-    return b''.join(out) + b'.\r\n'
+    return re.sub(br'(^|\n)\.', br'\1..', content) + b'.\r\n'
 
 
 def content_after_framing(content):
@@ -424,13 +424,14 @@ class Model(object):
         self.rcpts = []
         self.data_verdict = None
         self.gray = False       # outcome of transaction commands not pinned down by the statement
+        self.ext_gray = False   # a HELO was accepted: extension-dependent commands are not pinned down
         self.messages = []      # (sender, rcpts, content) expected at the queue / HAVE_DATA
 
     def _full_ext(self):
         e = set()
         if self.cfg.auth:
             e.add('AUTH')
-        if self.cfg.starttls:
+        if self.cfg.starttls and not getattr(self, 'tls_done', False):
             e.add('STARTTLS')
         if self.cfg.size:
             e.add('SIZE')
@@ -473,6 +474,8 @@ class Model(object):
                 self.ident = k
                 self._reset_tx()
                 self.ext = self._full_ext() if k == 'EHLO' else set()
+                if k == 'HELO':
+                    self.ext_gray = True
             self._end_if(v)
             return exp
         if k == 'MAIL':
@@ -485,6 +488,8 @@ class Model(object):
                 return err()
             params = m.group(2)
             sm = re.search(br'SIZE=(\S+)', params)
+            if sm and self.ext_gray:
+                return None
             if sm:
                 if not sm.group(1).isdigit() or 'SIZE' not in self.ext or int(sm.group(1)) > self.cfg.size:
                     return err()
@@ -532,41 +537,56 @@ class Model(object):
             content = content_after_framing(item.content or b'')
             cm = CONTENT_VERDICT_RE.search(content)
             final = cm.group(1).decode() if cm else '250'
-            exp['replies'] = ['354', final]
             exp['sends_content'] = True
+            if self.cfg.size and self.ext_gray and len(frame_content(item.content or b'')) - 3 > self.cfg.size:
+                return None
+            if self.cfg.size and len(frame_content(item.content or b'')) - 3 > self.cfg.size:
+                # over the SIZE limit: one 552, the content is not a message and not commands
+                exp['replies'] = ['354', '552']
+                if self.cfg.layer != 'edge':
+                    exp['cbs'].append(('HAVE_DATA', (None, 'MessageTooBig')))
+                self._reset_tx()
+                return exp
+            exp['replies'] = ['354', final]
             exp['cbs'].append(('HAVE_DATA', (content, None)))
             self.messages.append((self.sender, list(self.rcpts), content, final))
             self._reset_tx()
             self._end_if(final)
             return exp
+        edge = self.cfg.layer == 'edge'
         if k == 'RSET':
             if arg:
                 return err()
-            exp['cbs'] = [('RSET', ())]
+            exp['cbs'] = [] if edge else [('RSET', ())]
             exp['replies'] = ['250']
             self._reset_tx()
             return exp
         if k == 'NOOP':
-            exp['cbs'] = [('NOOP', ())]
+            exp['cbs'] = [] if edge else [('NOOP', ())]
             exp['replies'] = ['250']
             return exp
         if k == 'QUIT':
             if arg:
                 return err()
-            exp['cbs'] = [('QUIT', ())]
+            exp['cbs'] = [] if edge else [('QUIT', ())]
             exp['replies'] = ['221']
             self.ended = True
             return exp
         if k == 'STARTTLS':
+            if self.ext_gray and self.cfg.starttls:
+                return None
             if 'STARTTLS' not in self.ext or arg or not self.ident:
                 return err()
-            exp['cbs'] = [('STARTTLS', ()), ('TLSHANDSHAKE', None)]
+            exp['cbs'] = [] if edge else [('STARTTLS', ())]
             exp['replies'] = ['220']
+            self.tls_done = True
             self.ident = None
             self.ext = self.ext - {'STARTTLS'}
             self._reset_tx()
             return exp
         if k == 'AUTH':
+            if (self.ext_gray and self.cfg.auth) or getattr(self, 'auth_gray', False):
+                return None
             if 'AUTH' not in self.ext or not self.ident or self.authed:
                 return err()
             if self.gray:
@@ -575,8 +595,11 @@ class Model(object):
                 return err()
             # the AUTH exchange itself is C08's: here only its position in the session is judged
             exp['auth'] = item.label
+            self.auth_gray = True
             return exp
         if k == 'VRFY':
+            if edge:
+                return err()
             exp['replies'] = ['252']
             exp['cbs'] = [('VRFY', (arg,))]
             return exp
@@ -642,11 +665,14 @@ def judge_session(items, exps, model, res, cfg, prefix='C07'):
     """Lock-step comparison of the observed reply stream / callback trace with the automaton."""
     out = []
     desc = ' | '.join(i.label for i in items)
+    replies, garbage = parse_replies(res.output)
     if res.error is not None and res.error != 'blocked':
-        if not (isinstance(res.error, UnicodeDecodeError) and any(e.get('may_abort') for e in exps)):
-            if not (isinstance(res.error, TypeError) and any(e.get('lookalike') for e in exps)):
-                return [('%s:session-exception:%s' % (prefix, type(res.error).__name__),
-                         '%s: %r' % (desc, res.error))]
+        # an exception may leave handle() only after the client was told (421), or after the 501 for undecodable arguments
+        told = replies and (replies[-1][0] == '421' or
+                            (isinstance(res.error, UnicodeDecodeError) and replies[-1][0] == '501'))
+        if not told:
+            return [('%s:session-exception:%s' % (prefix, type(res.error).__name__),
+                     '%s: %r' % (desc, res.error))]
     replies, garbage = parse_replies(res.output)
     if garbage:
         return [('%s:unparsable-output' % prefix, '%s: %r' % (desc, garbage[:60]))]
@@ -656,9 +682,10 @@ def judge_session(items, exps, model, res, cfg, prefix='C07'):
         return [('%s:banner' % prefix, '%s: %r' % (desc, replies[:1]))]
     ends = [r[2] for r in replies]
     ri = 1
-    trace = [t for t in res.trace if t[0] not in ('BANNER', 'CLOSE')]
+    trace = [t for t in res.trace if t[0] not in ('BANNER', 'CLOSE', 'TLSHANDSHAKE')]
     ti = 0
     ended = want_banner in ('221', '421')
+    early_end = False
     for idx, (item, exp) in enumerate(zip(items, exps)):
         here = '%s @%d(%s)' % (desc, idx, item.label)
         if exp.get('after_end') or ended:
@@ -675,6 +702,10 @@ def judge_session(items, exps, model, res, cfg, prefix='C07'):
             code = replies[ri][0]
             got_codes.append(code)
             ri += 1
+            if want == FIVE and code == '421':
+                ended = True          # an error reply that also ends the session
+                early_end = True
+                break
             if not code_ok(want, code):
                 cls = 'callback-command-rejected' if exp['cbs'] and code.startswith('5') and want != FIVE else \
                     ('illegal-command-accepted' if want == FIVE else 'wrong-reply')
@@ -730,7 +761,7 @@ def judge_session(items, exps, model, res, cfg, prefix='C07'):
     if cfg.layer == 'edge' and not out:
         want = [(s, r, c) for (s, r, c, final) in model.messages if final == '250']
         got = [(e.sender, list(e.recipients), b''.join(e.flatten())) for e in res.envelopes]
-        full = len(exps) == len(items) and not any(e.get('after_end') for e in exps)
+        full = len(exps) == len(items) and not any(e.get('after_end') for e in exps) and not early_end
         if [(s, r) for s, r, _ in got] != [(s, r) for s, r, _ in want][:len(got)] or \
                 (full and len(got) != len(want)):
             out.append(('%s:queued-envelope' % prefix, '%s: got %r want %r'
